@@ -44,13 +44,13 @@ type c05Desc struct {
 	ImpatientWriters int `json:"impatient_writers,omitempty"`
 }
 
-var c05Closers = []string{"none", "none", "Close", "CloseNow", "writer-context-cancelled", "reader-context-cancelled", "peer-close-frame", "peer-transport-close", "closeread-data"}
+var c05Closers = []string{"none", "none", "Close", "CloseNow", "writer-context-cancelled", "reader-context-cancelled", "peer-close-frame", "peer-transport-close", "closeread-data", "closeread-racing-CloseNow"}
 
 func init() {
 	fw.Register(&fw.Prop{
 		ID:    "C05",
 		Level: "exploration",
-		Rule: "cases = scenarios under the Go race detector: role x agreement x 2-8 writers mixing Write and streaming Writer x 0-3 pingers x one reader (the peer sends tagged data and pings, so pongs are written while writers run) x a closer (none, Close, CloseNow, a writer's or the reader's context cancelled, peer Close frame, peer transport close, CloseRead + data) fired after a seeded number of frames x transport splitting writes / yielding / small window x seeded yields and sleeps at the library's verif points; the peer is raw in 2/3 of the scenarios and a second library endpoint in 1/3. " +
+		Rule: "cases = scenarios under the Go race detector: role x agreement x 2-8 writers mixing Write and streaming Writer x 0-3 pingers x one reader (the peer sends tagged data and pings, so pongs are written while writers run) x a closer (none, Close, CloseNow, a writer's or the reader's context cancelled, peer Close frame, peer transport close, CloseRead + data, a first CloseRead call racing with CloseNow) fired after a seeded number of frames x transport splitting writes / yielding / small window x seeded yields and sleeps at the library's verif points; the peer is raw in 2/3 of the scenarios and a second library endpoint in 1/3. " +
 			"Oracles: (1) the independent conformance monitor on the emitted stream; (2) every payload is (writer id, sequence number, length, PRNG stream of that id) so any mixing is found at the first wrong byte; (3) exactly-once and order on a logical-clock history: per writer order, real-time order (ret(a) < call(b) => pos(a) < pos(b)), every Write that returned nil is on the wire complete, operations that failed stay open; (4) the same history checked by porcupine against a FIFO queue model; (5) the library's reader racing with the closer returns each peer message exactly or fails after a true prefix; (6) race detector reports with a library frame. " +
 			"distinct key = (role, agreement, closer, where the close landed, peer kind, writers, wire-order signature class)",
 		Gen:         c05Gen,
@@ -352,7 +352,8 @@ func c05Run(r *fw.R, d c05Desc) {
 	defer writerCancel()
 	defer readerCancel()
 	var closeLanding atomic.Value
-	localClose := d.Closer == "Close" || d.Closer == "CloseNow" || d.Closer == "writer-context-cancelled" || d.Closer == "reader-context-cancelled" || d.Closer == "closeread-data"
+	crStarting := make(chan struct{})
+	localClose := d.Closer == "Close" || d.Closer == "CloseNow" || d.Closer == "writer-context-cancelled" || d.Closer == "reader-context-cancelled" || d.Closer == "closeread-data" || d.Closer == "closeread-racing-CloseNow"
 	trigger := func() {
 		if fired.Swap(true) || d.Closer == "none" {
 			return
@@ -385,6 +386,11 @@ func c05Run(r *fw.R, d c05Desc) {
 			}
 		case "peer-transport-close":
 			go peerEnd.Close()
+		case "closeread-racing-CloseNow":
+			// the reader goroutine makes its first CloseRead call at its next iteration (woken with data below);
+			// at that very moment another goroutine calls CloseNow
+			go func() { <-crStarting; c.CloseNow() }()
+			fallthrough
 		case "closeread-data":
 			// the reader goroutine switches to CloseRead at its next iteration; wake it with data and then
 			// send the message that violates the CloseRead policy
@@ -649,7 +655,10 @@ func c05Run(r *fw.R, d c05Desc) {
 		defer wg.Done()
 		buf := make([]byte, 1+rng.Intn(5000))
 		for {
-			if d.Closer == "closeread-data" && fired.Load() {
+			if (d.Closer == "closeread-data" || d.Closer == "closeread-racing-CloseNow") && fired.Load() {
+				if d.Closer == "closeread-racing-CloseNow" {
+					close(crStarting)
+				}
 				cr := c.CloseRead(readerCtx)
 				<-cr.Done()
 				return
